@@ -24,7 +24,7 @@ CHECKS = {
  "C16": dict(cat="exploration", design="§4 C16", engine="E-cli + E-fuzz",
    technique="grammar-derived generative fuzzing + token-level mutational fuzzing (Hypothesis) + enumerated boundary shapes; thorough adds a coverage-guided libFuzzer campaign whose crashes are re-judged through the CLI",
    text="Inputs up to 4 kB are produced by a generator derived at run time from the working tree's grammar.pest (all productions, types ignored, identifier reuse), by 1-4 token edits of the example corpus and of well-typed generated programs, by near-miss type pairs (a random type over every type constructor, a type one structural edit away, a value of it supplied in eleven typed positions), by the complete matrix of 27 infix operators x 24 x 24 atom shapes plus prefix / postfix operators x atoms (one expression per input so that the code generator is reached) and by ~90 enumerated boundary shapes (deep nesting of each bracketing construct, operator chains, huge literals, unterminated tokens, misplaced keywords, odd imports); `mscript compile --quick` must exit 0 or exit 1 with diagnostics - exit 101, a signal or a reproducible 10 s watchdog hit is a violation. The thorough tier adds a 16-process libFuzzer campaign (ASan, debug assertions, grammar dictionary, corpus seeds) against the in-memory compile hook; every artifact is replayed through the real CLI before it counts.",
-   note="Absence of crashes is only sampled. Inputs matching the two open findings (bracket nesting >= 300 / >= 12 consecutive `[`) are still generated in the CLI tiers (matched by signature) and excluded by construction inside the libFuzzer target."),
+   note="Absence of crashes is only sampled. Inputs matching the open finding KF-C16-2 (bracket nesting >= 300 overflows the stack) are still generated in the CLI tiers (matched by signature) and excluded by construction (nesting >= 120) inside the libFuzzer target."),
  "C11": dict(cat="exploration", design="§4 C11",
    technique="property-based testing: enumerated + Hypothesis-generated import graphs against a depth-first initialisation model, run in memory and from files",
    text="All import DAGs over up to 3 (quick) / 4 (thorough) modules x both import forms per edge x two placements of the import statements among side-effecting top-level statements are enumerated, and Hypothesis graphs over up to 5 modules add sub-directory layouts, `./` path spellings, modules imported in both forms and several importers per module; every import is followed by a call bumping the imported module's counter. The exact trace (each module initialised once at its first executed import, completed before the importer continues; one shared counter per module seen through every importer, through the module object and through exported getters) is prescribed by a simulation and must be printed by `run` and by `compile` + `execute`; four negative programs (private name through either import form, write through the module object, wrong type) must be rejected before anything runs.",
